@@ -3,10 +3,11 @@
 from __future__ import annotations
 
 import ast
+import re
 
 from ..cfg import CFG
 from ..facts import calls_in
-from ..index import FuncInfo, dotted_of, norm, own_nodes
+from ..index import FuncInfo, dotted_of, norm, own_nodes, short
 from ..shared import s1_sites
 
 PROPERTY = "C05"
@@ -34,8 +35,13 @@ RULES = {
     "`K in <node>.attributes` (also spelled `.get(K) is not None`) - presence is decided by the key, never by the stored "
     "attribute's value: a reference attribute (`alpha = @alpha` inside a function) has value None and must not be overwritten "
     "by the schema default",
+    "R8": "a pass never deletes an attribute of a node that stays in the graph (`<node>.attributes.pop(…)`, `del …attributes[…]`, "
+    "`.clear()`): an attribute is part of what the node computes - BatchNormalization without training_mode normalises with the "
+    "running statistics instead of the batch statistics",
+    "R9": "equivalence keys compare floats exactly: a FLOAT/FLOATS attribute enters the common-subexpression key through its "
+    "bit pattern (struct.pack, float.hex, tobytes), never as a Python float - 0.0 == -0.0 and hash alike, but x/0.0 and x/-0.0 differ",
 }
-FLOORS = {"R1": 5, "R2": 6, "R3": 8, "R4": 6, "R5": 8, "R6": 2, "R7": 1}
+FLOORS = {"R1": 5, "R2": 6, "R3": 8, "R4": 6, "R5": 8, "R6": 2, "R7": 1, "R8": 10, "R9": 1}
 EXPLANATION = (
     "Four structural necessary conditions of semantic preservation that the pass mechanisms rely on: guarded removal, "
     "interface-size preservation (call-site scan with receiver typing), data-dependence of the equivalence keys on all "
@@ -566,7 +572,66 @@ def _fresh_nodes(f) -> set:
     return out
 
 
+def rule_r8(ctx):
+    n = 0
+    for m in sorted(ctx.repo.modules.values(), key=lambda x: x.name):
+        if not m.name.startswith("onnx_ir.passes.common.") or m.name.endswith("_test"):
+            continue
+        n += 1
+        sites = []
+        for f in m.all_funcs:
+            if isinstance(f.node, ast.Lambda):
+                continue
+            fresh = _fresh_nodes(f)
+            for x in own_nodes(f.node):
+                tgt = None
+                if isinstance(x, ast.Call) and isinstance(x.func, ast.Attribute) and x.func.attr in ("pop", "clear", "popitem") \
+                        and isinstance(x.func.value, ast.Attribute) and x.func.value.attr == "attributes":
+                    tgt = x.func.value.value
+                elif isinstance(x, ast.Delete):
+                    for t in x.targets:
+                        if isinstance(t, ast.Subscript) and isinstance(t.value, ast.Attribute) and t.value.attr == "attributes":
+                            tgt = t.value.value
+                if tgt is not None and not (isinstance(tgt, ast.Name) and tgt.id in fresh):
+                    sites.append((f, x))
+        if not sites:
+            ctx.ob("R8", f"{m.name.rsplit('.', 1)[1]}: no attribute of an existing node is deleted", True, how="pop/del/clear on <node>.attributes")
+        for f, x in sites:
+            ctx.check("R8", f"{f.local}: `{short(norm(x))}` keeps the node's attributes", False, f, x,
+                      f"`{norm(x)[:80]}` deletes an attribute of a node that stays in the graph: the node then computes with the operator's default for it "
+                      "(BatchNormalization without training_mode=1 normalises Y with the running mean/variance inputs instead of the batch statistics)",
+                      how="attribute deletions in the pass modules", construct=f"attribute deleted: {short(norm(x))}")
+    ctx.require(n >= 10, f"only {n} pass modules scanned")
+
+
+_EXACT_FLOAT = re.compile(r"struct\.pack|\.hex\(|\.tobytes\(|float\.hex|\.view\(")
+
+
+def rule_r9(ctx):
+    f = next((g for g in ctx.repo.modules[CSE].all_funcs if not isinstance(g.node, ast.Lambda) and any(
+        isinstance(x, ast.Attribute) and x.attr in ("FLOATS", "FLOAT") for x in ast.walk(g.node))), None)
+    ctx.require(f is not None, "the attribute loop of the CSE pass (AttributeType.FLOAT/FLOATS) not found")
+    # statements executed for FLOAT / FLOATS attributes: bodies of the ifs whose test names those members
+    exact = {"FLOAT": False, "FLOATS": False}
+    for i in (x for x in own_nodes(f.node) if isinstance(x, ast.If)):
+        names = {a.attr for a in ast.walk(i.test) if isinstance(a, ast.Attribute)}
+        for mem in exact:
+            if mem in names and any(_EXACT_FLOAT.search(norm(st)) for st in i.body):
+                # the conversion must apply to this member alone or to float kinds only
+                if names & {"INTS", "STRINGS", "INT", "STRING"} and not all(_EXACT_FLOAT.search(norm(st)) for st in i.body if isinstance(st, ast.Assign)):
+                    continue
+                exact[mem] = True
+    for mem, ok in exact.items():
+        ctx.check("R9", f"CSE key: {mem} attributes enter the key through their bit pattern", ok, f, f.node,
+                  f"a {mem} attribute value enters the common-subexpression key as a Python float{' tuple' if mem == 'FLOATS' else ''}: 0.0 and -0.0 compare "
+                  "and hash equal, so `Constant<value_float=0.0>` and `Constant<value_float=-0.0>` are merged although x/0.0 = inf and x/-0.0 = -inf",
+                  how="branch of the attribute loop that handles the member converts with struct.pack / float.hex / tobytes",
+                  construct=f"CSE key compares {mem} by ==")
+
+
 def run(ctx):
+    rule_r8(ctx)
+    rule_r9(ctx)
     rule_r7(ctx)
     rule_r6(ctx)
     rule_r5(ctx)
